@@ -120,9 +120,11 @@ def extract_params(raw):
     """
     if isinstance(raw, (list, tuple)):
         try:
-            raw = dict(raw)
+            dict(raw)
         except (TypeError, ValueError):
             return None
+        # a list of 2-tuples may carry the same name more than once
+        return [(to_unicode(k), to_unicode(v)) for k, v in raw]
 
     if isinstance(raw, dict):
         params = []
